@@ -1,6 +1,7 @@
 package main
 
 import (
+	"regexp"
 	"encoding/json"
 	"fmt"
 	"os"
@@ -86,6 +87,27 @@ func c18m(c *Ctx) {
 			}
 			seen[tmpl]++
 			key := fmt.Sprintf("rejection[%s]#%d", tmpl, seen[tmpl])
+			// several reviewed messages that differ in a constant word may be produced by one
+			// site with that word as an operand (`invalid %s '%s'` for maxLineLength, numLines,
+			// …): the template then generalises messages of the catalogue and brings no new one
+			if _, exact := known[tmpl]; !exact {
+				re := regexp.QuoteMeta(tmpl)
+				for _, v := range []string{"%s", "%d", "%v", "%q"} {
+					re = strings.ReplaceAll(re, v, `.+`)
+				}
+				if rx, err := regexp.Compile("^" + re + "$"); err == nil {
+					total := 0
+					for m, k := range known {
+						if rx.MatchString(m) && strings.Count(m, "%") < strings.Count(tmpl, "%") {
+							total += k
+						}
+					}
+					if total > 0 && seen[tmpl] <= total {
+						c.OK(key, c.W.Pos(ci.Pos()), "generalises reviewed messages of the catalogue")
+						continue
+					}
+				}
+			}
 			c.Check(seen[tmpl] <= known[tmpl], key, c.W.Pos(ci.Pos()), "a reviewed reason to reject", fn.Name()+" rejects with a message that is not in the reviewed catalogue, or at one more place than reviewed ("+pretty(tmpl)+"): a program that compiled before may now be turned away — every property is stated for all programs, so a new rejection has to be reviewed (and added to rejections.json) like a change of the language")
 		}
 	}
